@@ -1871,7 +1871,8 @@ def note_array_from_part_list(
         divs_per_parts = [
             part_na[0]["divs_pq"] for part_na in note_array if len(part_na)
         ]
-        lcm = np.lcm.reduce(divs_per_parts)
+        # no part has notes: nothing to rescale (np.lcm.reduce of an empty list raises)
+        lcm = np.lcm.reduce(divs_per_parts) if len(divs_per_parts) > 0 else 1
         for na in note_array:
             if len(na) == 0:
                 # parts without notes have no divs_pq entry (and nothing to rescale)
